@@ -316,7 +316,7 @@ def _gen_aset_case(rng):
 
 def gen_cases(rng, tier):
     cases = []
-    n = 330 if tier == "quick" else 5000
+    n = 600 if tier == "quick" else 12000
     for i in range(n):
         if rng.random() < 0.12:
             cases.append(_gen_aset_case(rng))
